@@ -172,6 +172,8 @@ func SetFinalResult(queryOp *structs.QueryArithmetic, finalResult map[string]map
 		if valueLHS != valueRHS {
 			if queryOp.ReturnBool {
 				finalResult[groupID][timestamp] = 1
+			} else if queryOp.ConstantOp && swapped {
+				finalResult[groupID][timestamp] = valueRHS
 			} else {
 				finalResult[groupID][timestamp] = valueLHS
 			}
